@@ -73,6 +73,62 @@ func runRoute(c *Ctx) {
 		}
 	}
 	versionedRoutes(c, &idx)
+	if c.Shard == 0 && c.Begin("route-odd-names") {
+		oddNames(c)
+	}
+}
+
+// oddNames: command names and aliases are the blank-separated words of the declaration, byte for byte: a comma, a
+// dot, an equals sign or a non-ASCII letter is part of the name; fragments of a name address nothing.
+func oddNames(c *Ctx) {
+	decls := []string{"csv,tsv tab", "a.b", "x=y", "ünï u", "UP", "c1c", "c1"}
+	type probe struct {
+		args []string
+		want string // name list of the command whose Action must run, "" = usage error
+	}
+	var probes []probe
+	for _, d := range decls {
+		for _, alias := range strings.Fields(d) {
+			probes = append(probes, probe{[]string{alias}, d}, probe{[]string{"grp", alias, "v"}, "grp/" + d})
+		}
+	}
+	for _, frag := range []string{"csv", "tsv", "a", "b", "x", "y", "up", "c", "c1c1", "ün"} {
+		probes = append(probes, probe{[]string{frag}, ""}, probe{[]string{"grp", frag, "v"}, ""})
+	}
+	for _, p := range probes {
+		var ran []string
+		app := cli.App("app", "")
+		app.ErrorHandling = flowPolicies[0]
+		declare := func(cmd *cli.Cmd, prefix string, withArg bool) {
+			for _, d := range decls {
+				d := d
+				cmd.Command(d, "", func(sub *cli.Cmd) {
+					if withArg {
+						sub.StringArg("X", "", "")
+					}
+					sub.Action = func() { ran = append(ran, prefix+d) }
+				})
+			}
+		}
+		declare(app.Cmd, "", false)
+		app.Command("grp", "", func(g *cli.Cmd) { declare(g, "grp/", true) })
+		o := runIsolated(func() error { return app.Run(append([]string{"app"}, p.args...)) })
+		c.Count("evaluations", 1)
+		c.Count("nontrivial", 1)
+		c.Count("odd_name_cases", 1)
+		key := fmt.Sprintf("commands declared as %q (at the root and below `grp`) args=%q", decls, p.args)
+		cs := Case{"odd_names": true}
+		if p.want == "" {
+			if len(ran) != 0 || o.Err == nil || o.Panicked {
+				c.Violation("C04", key, cs, "usage error, nothing runs (a fragment of a name is not a name)", fmt.Sprintf("ran=%q err=%v panicked=%v", ran, o.Err, o.Panicked))
+			}
+			continue
+		}
+		if len(ran) != 1 || ran[0] != p.want || o.Err != nil || o.Panicked {
+			c.Violation("C04", key, cs, fmt.Sprintf("exactly the command declared as %q runs, once", p.want), fmt.Sprintf("ran=%q err=%v panicked=%v", ran, o.Err, o.Panicked))
+		}
+	}
+	c.Note("odd names", fmt.Sprintf("%d invocations: every alias of %q at the root and one level down, and fragments of those names", len(probes), decls))
 }
 
 // versionedRoutes: the application declares Version("v version"); only a version flag given as the very first
@@ -135,6 +191,10 @@ func shapeText(n *tnode) string {
 }
 
 func replayRoute(c *Ctx, cs Case) {
+	if odd, _ := cs["odd_names"].(bool); odd {
+		oddNames(c) // small: the whole enumeration
+		return
+	}
 	shape := treeShapes(true)[cInt(cs, "shape")]
 	numberSlots(shape)
 	var assign []int
